@@ -443,6 +443,9 @@ func (b *Built) UnfoldRoot(k int, root j5schema.RootSchema) *Tree {
 	return b.unfoldRoot(k, b.id(root.FullName()), root)
 }
 
+// NilSchema reports whether s is nil or the typed nil pointer that a failed build leaves in To.
+func NilSchema(s j5schema.RootSchema) bool { return nilSchema(s) }
+
 func nilSchema(s j5schema.RootSchema) bool {
 	if s == nil {
 		return true
